@@ -21,6 +21,9 @@ def run(rep, tier):
         aff.r_dense(rep, ctx, m, t, df)
     rep.rule("R-AFF-COLLOC", "Radau's interpolant, reconstructed from RADAU::interpolate and the stored blocks, passes through y_old and y_old + Z_i at theta = 0, c1, c2, 1: it is the collocation polynomial")
     radau.r_radau_dense(rep, f)
+    import dense
+    rep.rule("R-BDF-DENSE", "BDF dense block: writer and reader agree on which backward differences enter the interpolant for every order")
+    dense.r_bdf_dense(rep, f)
     rep.explanation = ("Proof-level for RK4, RK23, DOPRI5, DOP853: the polynomial the interpolant evaluates is reconstructed from X::interpolate and the "
                        "coefficient blocks X::solve stores, and the continuous order conditions are discharged coefficient-wise in theta for all trees "
                        "up to the advertised dense order q (3, 3, 4, 7). Not decided: error constants; BDF/Radau numerical accuracy after step changes.")
